@@ -180,6 +180,7 @@ GLOBAL_RULES = [
     ('coordinatevector_type', re.compile(r'\bCoordinateVector\s*<\s*(\w+)\s*>'), r'struct cm_cv_\1'),
     ('coordinatevector_default_type', re.compile(r'\bCoordinateVector\s*<\s*>'), r'struct cm_cv_double'),
     ('coordinatevector_xyz', re.compile(r'\.\s*([xyz])\s*\(\s*\)'), lambda m: '.c[%d]' % 'xyz'.index(m.group(1))),
+    ('string_map_type', re.compile(r'\bstd::map\s*<\s*std::string\s*,\s*std::string\s*>'), r'cm_map_token'),
     ('restart_write', re.compile(r'(?:\(\*restart_writer\)|\brestart_writer)\s*\.\s*write\s*\('), r'CM_TAPE_WRITE('),
     ('restart_read', re.compile(r'(?:\(\*restart_reader\)|\brestart_reader)\s*\.\s*read\s*<\s*([^<>]+?)\s*>\s*\(\s*\)'), r'CM_TAPE_READ(\1)'),
     ('functional_cast', re.compile(r'(?<![\w>.])(double|float|int|unsigned int|uint_fast32_t|int_fast32_t|uint_fast64_t|uint64_t|uint32_t|int32_t|size_t|uint_fast8_t|int_fast8_t|uint_least8_t|int_least8_t|uint_fast16_t|int_fast16_t|bool|char)\s*\((?!\s*\))(?=[^;{}]*\))'), None),
@@ -892,8 +893,8 @@ class Extractor:
         typemap = {}
         if 'typemap' in a:
             for kv in a['typemap'].split(';'):
-                k, v = kv.split(':')
-                typemap[k.strip()] = v.strip()
+                k, v = kv.rsplit(':', 1)
+                typemap[re.sub(r'\s+', '', k)] = v.strip()
         mode = a.get('mode', 'globals')
         lines = []
         names = []
@@ -905,7 +906,7 @@ class Extractor:
             ty = m['type']
             ty = lower_types(ty)
             ty = re.sub(r'^const\s+', '', ty)  # const data members are set by the ctor-initialiser
-            ty = typemap.get(ty, ty)
+            ty = typemap.get(ty, typemap.get(re.sub(r'\s+', '', ty), ty))
             if '<' in ty or '::' in ty:
                 raise ExtractionError('member %s::%s has type %s which needs a typemap entry' % (cls, m['name'], ty))
             decl = '%s %s%s%s;' % (ty, m['ptr'].replace('&', '*'), m['name'], m['arr'])
@@ -1324,6 +1325,12 @@ class Extractor:
                     # the function contract is still checked, without that loop contract
                     rep.setdefault('loop_contracts_not_applied', []).append(ordn)
                     continue
+                # CM_OPT(x): x is named in the clause only when a local x is declared before the loop (a name
+                # builder hoisted out of the loop is part of the loop's frame; one declared inside is not in scope)
+                def opt(m, off=loops[ordn]):
+                    d = re.search(r'[\w>\]]\s+' + re.escape(m.group(1)) + r'\s*(=|;|\{)', inner[:off])
+                    return (m.group(1) + ', ') if d else ''
+                lines = [re.sub(r'CM_OPT\((\w+)\)\s*', opt, l) for l in lines]
                 ins.append((loops[ordn], '\n' + self._tl(blk.loop_lines[ordn]) + '\n'.join(lines) + '\n'))
             rep['loops_annotated'] = sorted(blk.loops)
             rep['loops_total'] = len(loops)
